@@ -79,7 +79,8 @@ AbsToks(ws) == [i \in 1..Len(ws) |-> AbsTok(ws[i])]
 TokOK(w) ==
   CASE w.t = "delim" -> w.tag \in {1, 2, 4, 5}
     [] w.t = "end"   -> TRUE
-    [] w.t = "val"   -> IsValueTag(w.tag) /\ w.tag \notin {52, 55, 74} /\ Decode(w).k # "BAD"
+    [] w.t = "val"   -> /\ IsValueTag(w.tag) /\ w.tag \notin {52, 55, 74} /\ Decode(w).k # "BAD"
+                        /\ (IF w.tag = 34 /\ w.vlen = 1 THEN w.b[1] \in {0, 1} ELSE TRUE)   \* RFC 8010: boolean is 0x00 or 0x01 (other octets: outside the domain)
     [] w.t = "beg"   -> w.tag = 52 /\ w.vlen = 0
     [] w.t = "endc"  -> w.tag = 55 /\ w.vlen = 0 /\ w.nlen = 0
     [] w.t = "mem"   -> w.tag = 74
